@@ -57,11 +57,13 @@ def r1_guard(ck, F, d):
         if _filter_idiom(ck, R, F, b, d, anchor):
             for s, n, t in cursor_calls(b):
                 _q(ck, R, b, s, f"{d}/{n}")
-            for s, c_, t in calls(b, A("last_prefix")):
-                _q(ck, R, b, s, f"{d}/move_on_last_prefix")
             return
     ck.exact(R, f"starts_with tests in {anchor}", len(sw), 1, F.config)
-    ck.exact(R, f"key comparisons in {anchor}", len(byte_comparisons(b)), 1, F.config)
+    # the positioning of the first call (C05-R3's table, which lives in the first-call region of the reverse
+    # iterator) compares keys too; every other comparison must be the one guard
+    fr = _first_region(F, d)
+    first = fr[1] if fr else set()
+    ck.exact(R, f"key comparisons in {anchor}", len([c for c in byte_comparisons(b) if c["site"].bb not in first]), 1, F.config)
     if len(sw) != 1:
         return
     c = sw[0]
@@ -107,8 +109,6 @@ def r1_guard(ck, F, d):
     # errors are propagated: every cursor call is followed by `?`
     for s, n, t in cursor_calls(b):
         _q(ck, R, b, s, f"{d}/{n}")
-    for s, c_, t in calls(b, A("last_prefix")):
-        _q(ck, R, b, s, f"{d}/move_on_last_prefix")
 
 
 def _filter_idiom(ck, R, F, b, d, anchor):
@@ -146,7 +146,9 @@ def _filter_idiom(ck, R, F, b, d, anchor):
 
 
 def _q(ck, R, b, s, tag):
-    from .errflow import propagated
+    from .errflow import propagated, is_fallible_result
+    if not is_fallible_result(b.term(s.bb)["dest"]["ty"]):
+        return   # `current()` cannot fail
     ck.ob(R, f"error-propagated/{tag}", propagated(b.facts, b, s), "the cursor's Result is propagated (`?` or an equivalent match): an I/O error is returned, not folded into end-of-iteration", b, s)
 
 
@@ -173,6 +175,35 @@ def _phase(F, adt, b):
             if kind == "enum" and e.k == "discr" and is_self_field(e.a[0], name):
                 arms = dict(labels)
                 return name, kind, arms, bb
+    return None
+
+
+def _first_region(F, d):
+    """(body of next, blocks of its first-call arm, switch block, arms, first-call value) or None"""
+    anchor, _flag, step = NEXT[d]
+    b = F.body(A(anchor))
+    adt = "reader::prefix_iter::PrefixIter" if d == "fwd" else "reader::prefix_iter::RevPrefixIter"
+    ph = _phase(F, adt, b)
+    if ph is None:
+        return None
+    flag, kind, arms, sw = ph
+    init = set()
+    for bb_, s, rv in aggregates(F, adt):
+        init.add(_phase_val(kind, agg_field_expr(bb_, s, rv, flag)))
+    if len(init) != 1 or None in init or next(iter(init)) not in arms:
+        return None
+    v0 = next(iter(init))
+    return b, arm_region(b, sw, arms[v0]), sw, arms, v0
+
+
+def _phase_val(kind, e):
+    if kind == "bool":
+        return const_val(e)
+    e = e.strip()
+    if e.k == "agg" and not e.a:
+        return e.x.get("variant")
+    if e.k == "text":
+        return e.x.get("variant")
     return None
 
 
@@ -219,7 +250,7 @@ def r2_start(ck, F):
             if v == v0:
                 continue
             reg = arm_region(b, sw, tgt)
-            lc = [n for s, n, t in cursor_calls(b, reg)] + [callee_name(c) for s, c, t in calls(b, A("last_prefix")) if s.bb in reg]
+            lc = [n for s, n, t in cursor_calls(b, reg)]
             # a later state either advances by exactly one step or (an "exhausted" state) touches nothing
             ck.ob(R, f"later-calls-one-step/{d}", lc in ([step], []), f"state {v}: {lc} (expected exactly one {step}, or no cursor operation at all)", b)
         if d == "fwd":
@@ -227,12 +258,11 @@ def r2_start(ck, F):
             ok = [n for s, n, t in fc] == ["move_on_key_greater_than_or_equal_to"] and is_self_field(b.arg_exprs(fc[0][0])[1], "prefix") and is_self_field(b.arg_exprs(fc[0][0])[0], "cursor")
             ck.ob(R, "first-call/fwd", ok, f"first call: {[n for s, n, t in fc]} on self.prefix", b)
         else:
-            fc = [(s, c, t) for s, c, t in calls(b, A("last_prefix")) if s.bb in first]
-            ok = len(fc) == 1 and not cursor_calls(b, first)
-            if ok:
-                a = b.arg_exprs(fc[0][0])
-                ok = is_self_field(a[0], "cursor") and is_self_field(a[1], "prefix")
-            ck.ob(R, "first-call/rev", ok, "first call: move_on_last_prefix(self.cursor, copy of self.prefix)", b)
+            # the positioning on the last key of the prefix (move_on_last_prefix, spliced into this region when it is
+            # a function of its own): every cursor operation of the region works on self.cursor; what they do is C05-R3
+            fc = cursor_calls(b, first)
+            ok = bool(fc) and all(is_self_field(b.arg_exprs(s)[0], "cursor") for s, n, t in fc)
+            ck.ob(R, "first-call/rev", ok, f"first call: positions self.cursor on the last key of the prefix ({sorted({n for s, n, t in fc})}, table in C05-R3)", b)
     # stores to prefix: none after construction
     for adt in ("reader::prefix_iter::PrefixIter", "reader::prefix_iter::RevPrefixIter"):
         from .c03 import mutated_fields
@@ -242,14 +272,18 @@ def r2_start(ck, F):
 
 def r3_last_prefix(ck, F):
     R = "C05-R3"
-    b = F.body(A("last_prefix"))
-    adv = calls(b, A("advance_key"))
+    fr = _first_region(F, "rev")
+    if not ck.ob(R, "first-call-region", fr is not None, "RevPrefixIter::next has a first-call region (the helper move_on_last_prefix, when it exists, is spliced into it)", F.body(A(NEXT["rev"][0]))):
+        return
+    b, first = fr[0], fr[1]
+    adv = [x for x in calls(b, A("advance_key")) if x[0].bb in first]
     ck.exact(R, "advance_key calls", len(adv), 1, F.config)
+    ck.exact(R, "advance_key calls outside the first call", len([x for x in calls(b, A("advance_key")) if x[0].bb not in first]), 0, F.config)
     if not adv:
         return
-    ck.ob(R, "advance-own-prefix", is_arg(b.arg_exprs(adv[0][0])[0], "prefix"), "advance_key is applied to the given prefix", b, adv[0][0])
+    ck.ob(R, "advance-own-prefix", is_self_field(b.arg_exprs(adv[0][0])[0], "prefix"), "advance_key is applied to (a copy of) self.prefix", b, adv[0][0])
     sw = None
-    for bb in sorted(b.normal_blocks()):
+    for bb in sorted(first):
         if b.term(bb)["t"] == "switch":
             e, enum, labels, oth = switch_on(b, bb)
             if e.k == "discr" and e.a[0].strip().k == "call" and e.a[0].strip().x.get("site") == adv[0][0]:
@@ -268,7 +302,7 @@ def r3_last_prefix(ck, F):
         a = b.arg_exprs(seek[0])
         pay = unwrap_payload(a[1], "Some")
         ck.ob(R, "seeks-successor", pay is not None and pay.strip().x.get("site") == adv[0][0], f"<=-seek on the successor key ({a[1].show()[:70]})", b, seek[0])
-        cmps = [c for c in byte_comparisons(b)]
+        cmps = [c for c in byte_comparisons(b) if c["site"].bb in first]
         ck.exact(R, "comparisons in move_on_last_prefix", len(cmps), 1, F.config)
         for c in cmps:
             x, y = c["a"], c["b"]
